@@ -71,6 +71,7 @@ def build(case):
                                  hosts=("a.test", "b.test", "p0.test", "p1.test", "p2.test", "p3.test"))
     faults = [dict(f) for f in case.get("faults", [])]
     world = World(peer_factory=cfg.peer_factory, faults=faults)
+    world.tls_failure_leaves_open = bool(case.get("tls_leaves_open"))
     callers = [Caller(0, [step_for(scheme, "a.test", "v0", shape)], cancel=case.get("cancel"))]
     if ctx == "pool-timeout":
         # the victim waits for the only slot with a pool timeout while caller 1 holds a response open; the holder lets go
@@ -329,6 +330,11 @@ def enum_cases(tier):
                 for idx, opkind in elig:
                     for fault in FAULTS[opkind]:
                         cases.append({"kind": kind, "context": ctx, "shape": shape, "faults": [{"at": idx, "fault": fault}]})
+                        if opkind == "start_tls":
+                            # the same handshake failures under a backend that does not close the stream itself, alone and with the pool's
+                            # retries setting (a retried attempt must not forget the stream of the failed one)
+                            cases.append({"kind": kind, "context": ctx, "shape": shape, "faults": [{"at": idx, "fault": fault}], "tls_leaves_open": True})
+                            cases.append({"kind": kind, "context": ctx, "shape": shape, "faults": [{"at": idx, "fault": fault}], "tls_leaves_open": True, "retries": 2})
                 for k in points:
                     for style in STYLES:
                         cases.append({"kind": kind, "context": ctx, "shape": shape, "cancel": {"style": style, "at": k}})
